@@ -73,9 +73,15 @@ func (vv *VarVal) Hierarchy() []Symbol {
 	return []Symbol{SymbolSymbol, TrueSymbol}
 }
 
-// Eval the object.
+// Eval the object. A function body that is a bare symbol is compiled into the
+// variable itself so evaluating an unbound variable fails the same way a
+// symbol lookup does.
 func (vv *VarVal) Eval(s *Scope, depth int) Object {
-	return vv.Value()
+	val := vv.Value()
+	if val == Unbound {
+		UnboundVariablePanic(s, depth, Symbol(vv.name), "Variable %s is unbound.", vv.name)
+	}
+	return val
 }
 
 func newUnboundVar(name string) *VarVal {
